@@ -140,7 +140,7 @@ class Prop:
         frame_b = lambda m: [zero[0], noseq[0], m, other_single, zero[1], base['single'], noseq[1]]
         step = 1 if ctx.tier == 'thorough' else 4
         # (very short lines - empty, blanks, a lone delimiter - are always among the embedded ones)
-        short = [x for x in muts if len(x[2]) <= 12 or x[1].startswith(('tagblock-', 'payload-len-', 'frag-'))]
+        short = [x for x in muts if len(x[2]) <= 12 or x[1].startswith(('tagblock-', 'payload-len-', 'frag-', 'noise'))]
         for frame, sub in ((frame_a, muts[::step] + [x for x in short if x not in muts[::step]]), (frame_b, [x for x in muts if x[0] in ('frag1', 'frag2')][::max(1, step // 2)])):
           clean = [l for l in frame(None) if l is not None]
           # reassembly slot of every mutated line / of the first fragment of every delivery: computed once
